@@ -9,7 +9,7 @@ import z3
 from .classtable import (CT, Ty, TBool, TInt, TReal, TStr, TDT, TVal, TNode, TSeq, TSet, TOpt, TEnum, TMap,
                          DT_BITS)
 from . import classtable
-from .values import (SV, Rec, Box, Exc, BoundMethod, Closure, FunSym, Opaque, PyRaise, Untranslatable,
+from .values import (MetaBox, SV, Rec, Box, Exc, BoundMethod, Closure, FunSym, Opaque, PyRaise, Untranslatable,
                      is_concrete)
 
 
@@ -255,7 +255,7 @@ class BaseMixin:
                 # identity with a pre-existing concrete object: undetermined
                 return self.same_rel(s, SV(self.term(c, tyc), tyc, oid=('py', id(c))))
             return False
-        if isinstance(a, (Rec, Box)) or isinstance(b, (Rec, Box)):
+        if isinstance(a, (Rec, Box, MetaBox)) or isinstance(b, (Rec, Box, MetaBox)):
             return a is b
         return a is b
 
